@@ -180,11 +180,15 @@ int yr_modules_unload_all(YR_SCAN_CONTEXT* context)
        module->name != NULL && module->unload != NULL;
        module++)
   {
-    YR_OBJECT* module_structure = (YR_OBJECT*) yr_hash_table_remove(
+    YR_OBJECT* module_structure = (YR_OBJECT*) yr_hash_table_lookup(
         context->objects_table, module->name, NULL);
 
-    if (module_structure != NULL)
+    // The objects table also holds the external variables, and one of them can
+    // have the name of a module. Module structures are the only structures.
+    if (module_structure != NULL &&
+        module_structure->type == OBJECT_TYPE_STRUCTURE)
     {
+      yr_hash_table_remove(context->objects_table, module->name, NULL);
       module->unload(module_structure);
       yr_object_destroy(module_structure);
     }
